@@ -18,7 +18,7 @@ def anon_counter():
     from peppercompiler import DNA_classes
     return DNA_classes.AnonymousSequence.num
 
-def compile_files(files, base, args=(), synth=True, fixed=None, includes=None, cwd_rel=None, keep=False, outname=None):
+def compile_files(files, base, args=(), synth=True, fixed=None, includes=None, cwd_rel=None, keep=False, outname=None, objects=False):
     """Write files into a fresh directory, compile `base` there.  Returns dict(outcome, text|error, ctr0, dir)"""
     from peppercompiler import compiler as C
     d = fresh_dir()
@@ -37,6 +37,8 @@ def compile_files(files, base, args=(), synth=True, fixed=None, includes=None, c
         with contextlib.redirect_stdout(out), contextlib.redirect_stderr(err):
             C.compiler(base, list(args), outfile, "out.save", fixed, synth, includes)
         res.update(outcome="ok", text=open(outfile).read(), warnings=err.getvalue()[-400:])
+        if objects:
+            res["objects"] = dump_component(load_saved("out.save"))
     except SystemExit:
         res.update(outcome="rejected", error=("exit: " + err.getvalue())[-300:])
     except Exception as e:
@@ -47,3 +49,21 @@ def compile_files(files, base, args=(), synth=True, fixed=None, includes=None, c
         if not keep:
             shutil.rmtree(d, ignore_errors=True)
     return res
+
+def dump_component(comp):
+    """canonical dump of a Component object: the item and base-sequence lists behind the emitted lines"""
+    from peppercompiler import DNA_classes as D
+    def ref(x):
+        kind = "b" if isinstance(x, D.Sequence) else "s"
+        nm = x.name[:-1] if x.reversed else x.name
+        return [kind, nm, bool(x.reversed)]
+    def sup(s):
+        return {"seqs": [ref(x) for x in s.seqs], "base": [ref(x)[1:] for x in s.base_seqs], "len": s.length}
+    return {"sups": [[n, sup(s)] for n, s in comp.sup_seqs.items()],
+            "strands": [[n, sup(s)] for n, s in comp.strands.items()],
+            "bases": [[n, b.const, b.length] for n, b in comp.base_seqs.items()]}
+
+def load_saved(path):
+    import pickle
+    with open(path, "rb") as f:
+        return pickle.load(f)
